@@ -67,11 +67,69 @@ trait Driver {
     fn valid_event(r: &mut Rng) -> Vec<u8>;
     /// a response a well-behaved shell could give to `q`
     fn valid_output(r: &mut Rng, q: &Issued) -> Vec<u8>;
+    /// a schema-valid but unusual response (odd status codes, non-ASCII headers, huge or empty bodies ...)
+    fn unusual_output(r: &mut Rng, q: &Issued) -> Vec<u8> { Self::valid_output(r, q) }
+    /// requests that may be probed
+    fn probeable(_q: &Issued) -> bool { true }
+    // ---- typed shadow: the same app on a typed `Core`, driven with the decoded values; a rejected
+    // response to a one-shot request is modelled by dropping the typed request
+    type Shadow;
+    fn shadow_new() -> Option<Self::Shadow> { None }
+    fn shadow_event(_s: &mut Self::Shadow, _b: &[u8]) -> Option<Vec<Vec<u8>>> { None }
+    fn shadow_response(_s: &mut Self::Shadow, _i: usize, _b: &[u8]) -> Option<Result<Vec<Vec<u8>>, String>> { None }
+    fn shadow_drop(_s: &mut Self::Shadow, _i: usize) {}
+    fn shadow_view(_s: &Self::Shadow) -> Vec<u8> { vec![] }
 }
+
+fn dej<T: serde::de::DeserializeOwned>(json: bool, b: &[u8]) -> Option<T> {
+    if json { T::deserialize(&mut serde_json::Deserializer::from_slice(b)).ok() } else { bridge_opts().deserialize(b).ok() }
+}
+/// malapp on a typed core
+struct MalShadow { core: crux_core::Core<malapp::App>, pend: Vec<Option<malapp::Effect>>, json: bool }
+impl MalShadow {
+    fn new(json: bool) -> Self { MalShadow { core: crux_core::Core::new(), pend: vec![], json } }
+    fn de<T: serde::de::DeserializeOwned>(&self, b: &[u8]) -> Option<T> {
+        // like the bridge: a streaming deserializer that does not look at what follows the value
+        if self.json { T::deserialize(&mut serde_json::Deserializer::from_slice(b)).ok() } else { bridge_opts().deserialize(b).ok() }
+    }
+    fn take(&mut self, effects: Vec<malapp::Effect>) -> Vec<Vec<u8>> {
+        effects.into_iter().map(|e| {
+            let ffi = match &e {
+                malapp::Effect::Ask(q) => malapp::EffectFfi::Ask(q.operation.clone()),
+                malapp::Effect::Watch(q) => malapp::EffectFfi::Watch(q.operation.clone()),
+                malapp::Effect::Render(q) => malapp::EffectFfi::Render(q.operation.clone()),
+            };
+            self.pend.push(Some(e));
+            bridge_opts().serialize(&ffi).unwrap()
+        }).collect()
+    }
+    fn event(&mut self, b: &[u8]) -> Option<Vec<Vec<u8>>> {
+        let ev: malapp::MalEvent = self.de(b)?;
+        let effects = self.core.process_event(ev);
+        Some(self.take(effects))
+    }
+    fn response(&mut self, i: usize, b: &[u8]) -> Option<Result<Vec<Vec<u8>>, String>> {
+        let slot = self.pend.get_mut(i)?;
+        let res = match slot {
+            Some(malapp::Effect::Ask(q)) => { let out: malapp::Answer = dej(self.json, b)?; let r = self.core.resolve(q, out); *slot = None; r }
+            Some(malapp::Effect::Watch(q)) => { let out: malapp::Tick = dej(self.json, b)?; self.core.resolve(q, out) }
+            _ => return None,
+        };
+        Some(match res { Ok(effects) => Ok(self.take(effects)), Err(e) => Err(e.to_string()) })
+    }
+    fn view(&self) -> Vec<u8> { if self.json { serde_json::to_vec(&self.core.view()).unwrap() } else { bridge_opts().serialize(&self.core.view()).unwrap() } }
+}
+
 
 struct MalBin(crux_core::bridge::Bridge<malapp::App>);
 impl Driver for MalBin {
     const APP: &'static str = "malapp"; const CODEC: &'static str = "bincode"; const EVENT_FMT: &'static str = "MalEvent";
+    type Shadow = MalShadow;
+    fn shadow_new() -> Option<MalShadow> { Some(MalShadow::new(Self::CODEC == "json")) }
+    fn shadow_event(s: &mut MalShadow, b: &[u8]) -> Option<Vec<Vec<u8>>> { s.event(b) }
+    fn shadow_response(s: &mut MalShadow, i: usize, b: &[u8]) -> Option<Result<Vec<Vec<u8>>, String>> { s.response(i, b) }
+    fn shadow_drop(s: &mut MalShadow, i: usize) { if let Some(x) = s.pend.get_mut(i) { *x = None; } }
+    fn shadow_view(s: &MalShadow) -> Vec<u8> { s.view() }
     fn new() -> Self { MalBin(crux_core::bridge::Bridge::new(crux_core::Core::new())) }
     fn event(&self, b: &[u8]) -> Result<Vec<u8>, String> { self.0.process_event(b).map_err(|e| e.to_string()) }
     fn response(&self, id: u32, b: &[u8]) -> Result<Vec<u8>, String> { self.0.handle_response(id, b).map_err(|e| e.to_string()) }
@@ -97,6 +155,12 @@ fn mal_issued(id: u32, e: &malapp::EffectFfi) -> Issued {
 struct MalJson(crux_core::bridge::BridgeWithSerializer<malapp::App>);
 impl Driver for MalJson {
     const APP: &'static str = "malapp"; const CODEC: &'static str = "json"; const EVENT_FMT: &'static str = "MalEvent";
+    type Shadow = MalShadow;
+    fn shadow_new() -> Option<MalShadow> { Some(MalShadow::new(Self::CODEC == "json")) }
+    fn shadow_event(s: &mut MalShadow, b: &[u8]) -> Option<Vec<Vec<u8>>> { s.event(b) }
+    fn shadow_response(s: &mut MalShadow, i: usize, b: &[u8]) -> Option<Result<Vec<Vec<u8>>, String>> { s.response(i, b) }
+    fn shadow_drop(s: &mut MalShadow, i: usize) { if let Some(x) = s.pend.get_mut(i) { *x = None; } }
+    fn shadow_view(s: &MalShadow) -> Vec<u8> { s.view() }
     fn new() -> Self { MalJson(crux_core::bridge::BridgeWithSerializer::new(crux_core::Core::new())) }
     fn event(&self, b: &[u8]) -> Result<Vec<u8>, String> {
         let mut out = vec![];
@@ -124,6 +188,16 @@ impl Driver for MalJson {
 struct KvBin(crux_core::bridge::Bridge<kvapp::App>);
 impl Driver for KvBin {
     const APP: &'static str = "kvapp"; const CODEC: &'static str = "bincode"; const EVENT_FMT: &'static str = "Event";
+    type Shadow = ();
+    fn unusual_output(r: &mut Rng, q: &Issued) -> Vec<u8> {
+        use crux_http::protocol::{HttpHeader, HttpResponse, HttpResult};
+        if q.fmt != "HttpResult" { return Self::valid_output(r, q); }
+        let odd = ["caf\u{e9}", "\u{dc}n\u{ef}", "", "a b", "x\ny", "x-ok", "\u{1f511}", "content-type", "text/plain; charset=\u{fc}tf-8"];
+        let status = *r.pick(&[0u16, 99, 100, 199, 200, 204, 299, 304, 418, 451, 599, 600, 999, u16::MAX]);
+        let headers = (0..r.below(4)).map(|_| HttpHeader { name: r.pick(&odd).to_string(), value: r.pick(&odd).to_string() }).collect();
+        let body = match r.below(4) { 0 => vec![], 1 => vec![0xff; 100_000], 2 => "\u{feff}bom".as_bytes().to_vec(), _ => wire_common::arb::Blob::arb(r).0 };
+        bridge_opts().serialize(&HttpResult::Ok(HttpResponse { status, headers, body })).unwrap()
+    }
     fn new() -> Self { KvBin(crux_core::bridge::Bridge::new(crux_core::Core::new())) }
     fn event(&self, b: &[u8]) -> Result<Vec<u8>, String> { self.0.process_event(b).map_err(|e| e.to_string()) }
     fn response(&self, id: u32, b: &[u8]) -> Result<Vec<u8>, String> { self.0.handle_response(id, b).map_err(|e| e.to_string()) }
@@ -172,7 +246,7 @@ impl Driver for KvBin {
 }
 
 // ---------------------------------------------------------------- mutators
-const MUTATORS: [&str; 5] = ["random", "truncate", "extend", "bitflip", "length"];
+const MUTATORS: [&str; 6] = ["random", "truncate", "extend", "bitflip", "length", "unusual"];
 fn mutate(r: &mut Rng, base: &[u8], which: usize, json: bool) -> Vec<u8> {
     let mut b = base.to_vec();
     match which {
@@ -208,6 +282,9 @@ fn payloads(v: &[Issued]) -> Vec<Vec<u8>> { v.iter().map(|q| q.payload.clone()).
 
 fn history<D: Driver>(r: &mut Rng, hno: u64) {
     let (m, t) = (D::new(), D::new());
+    let mut shadow = D::shadow_new();
+    // what was done, in order (printed when the parties end up disagreeing): E = event, R<i> = response to the i-th request issued
+    let actions: std::cell::RefCell<Vec<String>> = std::cell::RefCell::new(vec![]);
     let mut reqs: Vec<Req> = vec![];
     let mut mismatch: Vec<String> = vec![];
     let (mut probes, mut steps_done) = (0u32, 0u32);
@@ -215,7 +292,8 @@ fn history<D: Driver>(r: &mut Rng, hno: u64) {
     let steps = 4 + r.below(14);
     let mut dead = false;
     // apply one input to both bridges and compare
-    let both = |m: &D, t: &D, reqs: &mut Vec<Req>, mismatch: &mut Vec<String>, target: Option<usize>, bytes: &[u8], what: &str| -> bool {
+    let both = |m: &D, t: &D, shadow: &mut Option<D::Shadow>, reqs: &mut Vec<Req>, mismatch: &mut Vec<String>, target: Option<usize>, bytes: &[u8], what: &str| -> bool {
+        actions.borrow_mut().push(format!("{{\"do\":{},\"to\":{},\"bytes\":\"{}\"}}", json_str(what), match target { None => "\"event\"".to_string(), Some(i) => format!("\"request #{}\"", i) }, hex(bytes)));
         let (rm, rt) = match target {
             None => (catch_unwind(AssertUnwindSafe(|| m.event(bytes))), catch_unwind(AssertUnwindSafe(|| t.event(bytes)))),
             Some(i) => { let (a, b) = (reqs[i].m.id, reqs[i].t_id); (catch_unwind(AssertUnwindSafe(|| m.response(a, bytes))), catch_unwind(AssertUnwindSafe(|| t.response(b, bytes)))) }
@@ -225,6 +303,13 @@ fn history<D: Driver>(r: &mut Rng, hno: u64) {
             (Ok(om), Ok(ot)) => {
                 let (im, it) = (D::issued(om), D::issued(ot));
                 if payloads(&im) != payloads(&it) { mismatch.push(format!("{}: effects differ", what)); }
+                if let Some(sh) = shadow.as_mut() {
+                    let ps = match target { None => D::shadow_event(sh, bytes).map(Ok), Some(i) => D::shadow_response(sh, i, bytes) };
+                    match ps {
+                        Some(Ok(ps)) => if ps != payloads(&im) { mismatch.push(format!("{}: bridge and typed core emit different effects ({} vs {})", what, im.len(), ps.len())); return false; },
+                        _ => { mismatch.push(format!("{}: typed core did not accept what the bridge accepted", what)); return false; }
+                    }
+                }
                 for (a, b) in im.into_iter().zip(it.into_iter()) { reqs.push(Req { m: a, t_id: b.id, alive: true }); }
             }
             (Err(a), Err(b)) => { if a != b { mismatch.push(format!("{}: errors differ: {} / {}", what, a, b)); } }
@@ -232,6 +317,7 @@ fn history<D: Driver>(r: &mut Rng, hno: u64) {
         }
         if let Some(i) = target { if reqs[i].m.kind != Kind::Many { reqs[i].alive = false; } }
         if m.view() != t.view() { mismatch.push(format!("{}: views differ", what)); }
+        if let Some(sh) = shadow.as_ref() { if D::shadow_view(sh) != m.view() { mismatch.push(format!("{}: bridge view differs from the typed core's", what)); } }
         true
     };
     for _ in 0..steps {
@@ -242,23 +328,29 @@ fn history<D: Driver>(r: &mut Rng, hno: u64) {
         let roll = r.below(100);
         if roll < 35 || (roll < 60 && answerable.is_empty()) {
             let bytes = D::valid_event(r);
-            if !both(&m, &t, &mut reqs, &mut mismatch, None, &bytes, "valid event") { dead = true; }
+            if !both(&m, &t, &mut shadow, &mut reqs, &mut mismatch, None, &bytes, "valid event") { dead = true; }
         } else if roll < 60 {
             let i = *r.pick(&answerable);
             let bytes = D::valid_output(r, &reqs[i].m);
-            if !both(&m, &t, &mut reqs, &mut mismatch, Some(i), &bytes, "valid response") { dead = true; }
+            if !both(&m, &t, &mut shadow, &mut reqs, &mut mismatch, Some(i), &bytes, "valid response") { dead = true; }
         } else {
             // ---- probe
             probes += 1;
             let target: Option<usize> = if alive.is_empty() || r.coin(2, 5) { None } else {
                 // notifications (Never entries) only now and then
-                let pick = *r.pick(&alive);
+                let probeable: Vec<usize> = alive.iter().cloned().filter(|&i| D::probeable(&reqs[i].m)).collect();
+                let pick = if probeable.is_empty() { *r.pick(&alive) } else { *r.pick(&probeable) };
                 if reqs[pick].m.kind == Kind::Never && r.coin(2, 3) && !answerable.is_empty() { Some(*r.pick(&answerable)) } else { Some(pick) }
             };
-            let base = match target { None => D::valid_event(r), Some(i) => D::valid_output(r, &reqs[i].m) };
-            let which = r.below(5) as usize;
-            let input = mutate(r, &base, which, json);
+            let which = r.below(6) as usize;
+            let input = if which == 5 {
+                match target { None => D::valid_event(r), Some(i) => D::unusual_output(r, &reqs[i].m) }
+            } else {
+                let base = match target { None => D::valid_event(r), Some(i) => D::valid_output(r, &reqs[i].m) };
+                mutate(r, &base, which, json)
+            };
             let before = m.view();
+            actions.borrow_mut().push(format!("{{\"do\":\"probe ({})\",\"to\":{},\"bytes\":\"{}\"}}", MUTATORS[which], match target { None => "\"event\"".to_string(), Some(i) => format!("\"request #{}\"", i) }, hex(&input)));
             let (res, max_single, peak) = measured(|| guarded(|| catch_unwind(AssertUnwindSafe(|| match target {
                 None => m.event(&input), Some(i) => m.response(reqs[i].m.id, &input) }))));
             let (tname, fmt, tag) = match target { None => ("event", D::EVENT_FMT, String::new()), Some(i) => (match reqs[i].m.kind { Kind::Once => "once", Kind::Many => "many", Kind::Never => "never" }, reqs[i].m.fmt, reqs[i].m.tag.clone()) };
@@ -279,6 +371,13 @@ fn history<D: Driver>(r: &mut Rng, hno: u64) {
                         Ok(Ok(ot)) => {
                             let it = D::issued(&ot);
                             if payloads(&im) != payloads(&it) { mismatch.push("accepted mutant: effects differ".into()); }
+                            if let Some(sh) = shadow.as_mut() {
+                                let ps = match target { None => D::shadow_event(sh, &input).map(Ok), Some(i) => D::shadow_response(sh, i, &input) };
+                                match ps {
+                                    Some(Ok(ps)) => if ps != payloads(&im) { mismatch.push("accepted mutant: bridge and typed core emit different effects".into()); dead = true; },
+                                    _ => { mismatch.push("accepted mutant: typed core did not accept it".into()); dead = true; }
+                                }
+                            }
                             for (a, b) in im.into_iter().zip(it.into_iter()) { reqs.push(Req { m: a, t_id: b.id, alive: true }); }
                         }
                         _ => { mismatch.push("accepted mutant: twin did not accept".into()); dead = true; }
@@ -287,22 +386,33 @@ fn history<D: Driver>(r: &mut Rng, hno: u64) {
                 }
                 Ok(Err(_)) => {
                     // rejected: an event must leave no trace; a response may cost that one request
-                    if let Some(i) = target { if reqs[i].m.kind != Kind::Many { reqs[i].alive = false; } }
+                    if let Some(i) = target {
+                        if reqs[i].m.kind != Kind::Many { reqs[i].alive = false; }
+                        if reqs[i].m.kind == Kind::Once {
+                            // the request is gone in M: the bridge twin loses it the same way, the typed core by dropping the request;
+                            // whatever was sequenced after it must come out of all three with the next call
+                            let id = reqs[i].t_id;
+                            let _ = catch_unwind(AssertUnwindSafe(|| t.response(id, &input)));
+                            if let Some(sh) = shadow.as_mut() { D::shadow_drop(sh, i); }
+                        }
+                    }
                 }
             }
             if !dead && m.view() != t.view() { mismatch.push("after probe: views differ".into()); }
+            if !dead { if let Some(sh) = shadow.as_ref() { if D::shadow_view(sh) != m.view() { mismatch.push("after probe: bridge view differs from the typed core's".into()); } } }
         }
     }
     // the rest of the world still works the same: one more valid event and every live request answered
     if !dead {
         let bytes = D::valid_event(r);
-        both(&m, &t, &mut reqs, &mut mismatch, None, &bytes, "closing event");
+        both(&m, &t, &mut shadow, &mut reqs, &mut mismatch, None, &bytes, "closing event");
         let live: Vec<usize> = (0..reqs.len()).filter(|&i| reqs[i].alive && reqs[i].m.kind != Kind::Never).collect();
-        for i in live { let bytes = D::valid_output(r, &reqs[i].m); if !both(&m, &t, &mut reqs, &mut mismatch, Some(i), &bytes, "closing response") { break; } }
+        for i in live { let bytes = D::valid_output(r, &reqs[i].m); if !both(&m, &t, &mut shadow, &mut reqs, &mut mismatch, Some(i), &bytes, "closing response") { break; } }
     }
     mismatch.truncate(5);
-    println!("{{\"t\":\"history\",\"h\":{},\"codec\":\"{}\",\"app\":\"{}\",\"steps\":{},\"probes\":{},\"requests\":{},\"twin_ok\":{},\"mismatch\":[{}]}}",
-        hno, D::CODEC, D::APP, steps_done, probes, reqs.len(), mismatch.is_empty(), mismatch.iter().map(|s| json_str(s)).collect::<Vec<_>>().join(","));
+    println!("{{\"t\":\"history\",\"h\":{},\"codec\":\"{}\",\"app\":\"{}\",\"steps\":{},\"probes\":{},\"requests\":{},\"twin_ok\":{},\"mismatch\":[{}],\"actions\":[{}]}}",
+        hno, D::CODEC, D::APP, steps_done, probes, reqs.len(), mismatch.is_empty(), mismatch.iter().map(|s| json_str(s)).collect::<Vec<_>>().join(","),
+        if mismatch.is_empty() { String::new() } else { actions.borrow().join(",") });
 }
 
 /// replay of a stored probe: the `pre` events on a fresh bridge, then the input as an event or as the
